@@ -99,9 +99,16 @@ def generate(seed, prop):
         for r in recs[1:]:
             if r["rate"] == recs[0]["rate"] and rng.random() < 0.6:
                 r["dt_ulps"] = rng.choice([1, 2])
-    probe_nyq = rng.random() < 0.12
+    probe_nyq = rng.random() < (0.25 if prop == "C03" else 0.1)
     n_set = rng.randint(1, 3)
     sets = [draw_settings(rng, probe_nyq and i == 0) for i in range(n_set)]
+    if probe_nyq:
+        # biased: a centre frequency between the lowest and the highest Nyquist frequency of the pool
+        nyq = sorted({r["rate"] / 2.0 for r in recs})
+        if len(nyq) > 1 and rng.random() < 0.7:
+            sets[0]["fcs"][-1] = float(nyq[0] * rng.choice([1.02, 1.1, 1.3]) if nyq[0] * 1.3 < nyq[-1] else (nyq[0] + nyq[-1]) / 2)
+            if rng.random() < 0.6:
+                sets[0]["policy"] = "frequency_domain_resampling"
     own = (prop == "C09")
     w = {"process": 5.0, "repeat": 2.0 if prop == "C09" else 0.5, "mutate_record": 1.5,
          "mutate_settings": 1.5 if prop == "C09" else 0.5, "process_bad": 0.8}
